@@ -16,12 +16,13 @@ pub struct EvaluationError {
     pub message: String,
 }
 
-pub type FunctionMap = HashMap<String, Arc<Mutex<dyn FunctionCallback + Send + Sync>>>;
+// (a function is not locked while it is applied: its arguments may call the same function again, e.g. `ram(ram($fb))`)
+pub type FunctionMap = HashMap<String, Arc<dyn FunctionCallback + Send + Sync>>;
 
 pub trait FunctionCallback {
     fn expected_args(&self) -> usize;
     fn apply(
-        &mut self,
+        &self,
         ctx: &Evaluator,
         args: &[&Located<Expression>],
     ) -> EvaluationResult<Option<SymbolData>>;
@@ -219,7 +220,6 @@ impl<'a> Evaluator<'a> {
             ExpressionFactor::FunctionCall { name, args, .. } => {
                 match self.functions.get(name.data.as_str()) {
                     Some(callback) => {
-                        let mut callback = callback.lock().unwrap();
                         self.expect_args(name.span, args.len(), callback.expected_args())?;
                         callback.apply(self, &args.iter().map(|(expr, _)| expr).collect_vec())
                     }
